@@ -105,6 +105,12 @@ def run(ctx, replay_cases=None):
         if c.get("err"):
             ctx.fail("correspondence", "NewExecutionGraphForRetry refused an acyclic graph", c)
     reset_ok = [c for c in reset if not c.get("err")]
+    for c in reset_ok:
+        # a node is either kept exactly as recorded or reset to the zero state (status, log, times, retry and done counts):
+        # a step that runs again with the retry budget of the recorded run already spent does not "run again" as a step does
+        if c.get("partial"):
+            ctx.fail("monitor", "NewExecutionGraphForRetry left node(s) %s neither as recorded nor in the zero state "
+                     "(a re-executed step would carry the recorded run's retry/done counts or log)" % c["partial"], c)
     shards = [reset_ok[i:i + SHARD] for i in range(0, len(reset_ok), SHARD)]
     with ThreadPoolExecutor(max_workers=14) as ex:
         results = list(ex.map(lambda t: eval_shard(ctx, t[0], t[1]), enumerate(shards)))
